@@ -120,8 +120,8 @@ def _run_tree(text):
     def go():
         env = _parse(text)
         data = env.data()
-        data = {k: (int(v) if hasattr(v, "__int__") and not isinstance(v, bool) else repr(v))
-                for k, v in data.items()}
+        data = {k: (bool(v) if type(v).__name__ in ("bool", "bool_", "bool") else
+                    int(v) if hasattr(v, "__int__") else repr(v)) for k, v in data.items()}
         return data, sorted(env.data(tags=["t"]))
     return outcome(go)
 
@@ -190,9 +190,9 @@ def _behaviour_tree(exp, got, effective_values=()):
     return "+".join(sorted(x for x in b if x))
 
 
-def _check_tree(prog, gorder, sh=None):
+def _check_tree(prog, gorder, sh=None, root="int"):
     """returns (walk, failure-record or None); raises G.Invalid when the AST is outside the alphabet"""
-    w = G.Walk(prog, gorder)
+    w = G.Walk(prog, gorder, root)
     if not w.cross_check():
         raise HarnessError("the two reference readings (AST interpreter / indentation automaton) disagree on %r" % (prog,))
     text = G.text_of(w.lines)
@@ -203,7 +203,7 @@ def _check_tree(prog, gorder, sh=None):
     if got[0] == "ok" and (got[1][0], got[1][1]) == exp:
         return w, None
     tags = sorted(G.shape_features(prog) | w.feat)
-    rec = failure("tree", dict(kind="tree", prog=prog, gorder=gorder, text=text),
+    rec = failure("tree", dict(kind="tree", prog=prog, gorder=gorder, root=root, text=text),
                   dict(data=exp[0], tagged=exp[1]),
                   dict(data=got[1][0], tagged=got[1][1]) if got[0] == "ok" else list(got),
                   tags=tags, behaviour=_behaviour_tree(exp, got, w.effective_values))
@@ -309,6 +309,20 @@ def _run_e2(desc, sh):
             for feat in ("unit-directive", "property-line-after-block"):
                 if feat in w.feat:
                     sh.add_extra("e2_programs_with_" + feat, 1)
+        # the same program with the condition written as a bare reference to a bool node (@case {?v1})
+        if "expression-condition" in w.feat:
+            for root in ("boolT", "boolF"):
+                try:
+                    w2, rec = _check_tree(prog, "asc", sh, root)
+                except G.Invalid:
+                    continue
+                leaks += _cheap_isolation()
+                sh.evaluations += 1
+                if w2.probe_in_or_after_block:
+                    sh.nontrivial += 1
+                if rec:
+                    sh.fail(rec)
+                sh.add_extra("e2_programs_with_bare-reference-condition", 1)
             sh.add_extra("e2_lines_skipped_by_reference", w.skipped_lines)
             sh.add_extra("e2_lines_effective_by_reference", w.effective_lines)
     if leaks:
@@ -425,7 +439,7 @@ def run_shard(desc):
 def replay(rec):
     c = rec["case"]
     if c["kind"] == "tree":
-        _, bad = _check_tree(_tup(c["prog"]), c["gorder"])
+        _, bad = _check_tree(_tup(c["prog"]), c["gorder"], root=c.get("root", "int"))
     elif c["kind"] == "offset":
         _, bad = _check_offset(_tup(c["prog"]), c["k"])
     else:
@@ -444,7 +458,7 @@ def finish(total, tier, seed):
     missing = [k for k in need if not h.get(k)]
     if missing:
         raise HarnessError("vacuous run, outcome classes never seen: %s" % missing)
-    for feat in ("unit-directive", "property-line-after-block"):
+    for feat in ("unit-directive", "property-line-after-block", "bare-reference-condition"):
         if not total.extra.get("e2_programs_with_" + feat):
             raise HarnessError("vacuous run: no program with feature %s" % feat)
     if not total.extra.get("e2_lines_skipped_by_reference") or not total.extra.get("e2_lines_effective_by_reference"):
@@ -468,7 +482,7 @@ MANIFEST = dict(
          "after a block nested among a node's properties -, $unit directives followed by a node using the unit, groups in both name "
          "orders, @case/@else/@end blocks nested up to 3 deep with up to 3 clauses, closed by @end or by indentation "
          "incl. several levels at once, empty clauses, every truth assignment incl. conditions that depend on earlier "
-         "clauses) with <= 5 lines in the full alphabet and 6 lines in the static alphabet (thorough: 6 and 7) is "
+         "clauses, written as literals, as (\"...\") expressions and as bare references `@case {?b}` to a bool node) with <= 5 lines in the full alphabet and 6 lines in the static alphabet (thorough: 6 and 7) is "
          "compared (exact env.data() and tag query) with a reference interpreting the generator's AST. E3: every such "
          "program with a block and <= 4 lines (thorough 5) is re-run behind 13 prefixes of closed blocks that advance "
          "the parser's document-wide clause/block counters, so its first clause keyword gets every id 1..14 (thorough "
